@@ -1,55 +1,61 @@
-"""Worker process: claims units (O_EXCL files) and runs them under a watchdog."""
+"""Worker side of the runner.
+
+  python -m vf.worker PID WORK TIMEOUT BC warm        single writer of the shared numba cache
+  python -m vf.worker PID WORK TIMEOUT BC zygote N    import + prefork once, then fork N unit workers
+
+Memory-management system calls (page faults, mmap) scale badly across processes in
+this sandbox, which makes N independent interpreters each importing strax and
+JIT-compiling the same functions several times slower than one. The zygote therefore
+imports the check module and compiles what every unit needs once, then forks the
+workers, which inherit the compiled code. Forked workers never write to the numba
+cache (save_overload is a no-op there), so the on-disk cache keeps a single writer.
+
+Units are claimed through O_EXCL files; results are written to WORK/out/<k>.json. A
+child that dies inside a unit leaves {"crashed": rc} for that unit.
+"""
 import faulthandler
+import importlib
 import json
 import os
+import shutil
 import sys
+import time
 import traceback
 
 from vf import common
 
 
-def main():
-    pid, work, unit_timeout = sys.argv[1], sys.argv[2], float(sys.argv[3])
-    want_bc = sys.argv[4] == "1"
-    warm = len(sys.argv) > 5 and sys.argv[5] == "warm"
-    if warm:
-        # single writer of the shared numba cache
-        import importlib
-
-        with common.cache_lock(want_bc, exclusive=True):
-            os.environ["VERIF_NUMBA_PRIVATE"] = common.shared_cache_dir(want_bc)
-            common.setup_env(boundscheck=want_bc, cache_dir=common.shared_cache_dir(want_bc))
-            faulthandler.enable()
-            faulthandler.dump_traceback_later(unit_timeout, exit=True)
-            m = importlib.import_module("vf.checks." + pid.lower())
-            if hasattr(m, "warm"):
-                m.warm()
-        os._exit(0)
-    private = os.path.join(work, f"nb-{os.getpid()}")
-    common.copy_shared_cache(want_bc, private)
-    os.environ["VERIF_NUMBA_PRIVATE"] = private
+def load_units(work):
     with open(os.path.join(work, "units.json")) as f:
-        units = json.load(f)
+        return json.load(f)
+
+
+def write_result(work, k, r):
+    tmp = os.path.join(work, "out", f"{k}.json.tmp")
+    with open(tmp, "w") as f:
+        f.write(common.canon(r))
+    os.rename(tmp, os.path.join(work, "out", f"{k}.json"))
+
+
+def child_loop(pid, work, unit_timeout, want_bc, m, units):
+    try:
+        import numba.core.caching as nc
+
+        nc.Cache.save_overload = lambda self, sig, data: None
+    except Exception:  # noqa: BLE001
+        pass
     faulthandler.enable()
-    mode = None
-    m = None
+    me = str(os.getpid())
     for k, unit in enumerate(units):
-        bc = bool(unit.get("boundscheck"))
-        if bc != want_bc:
-            continue  # a worker serves one numba mode only (env is read at import)
+        if bool(unit.get("boundscheck")) != want_bc:
+            continue
         claim = os.path.join(work, "claim", str(k))
         try:
             fd = os.open(claim, os.O_CREAT | os.O_EXCL | os.O_WRONLY)
         except FileExistsError:
             continue
-        os.write(fd, str(os.getpid()).encode())
+        os.write(fd, me.encode())
         os.close(fd)
-        if mode is None:
-            mode = bc
-            common.setup_env(boundscheck=bc)
-            import importlib
-
-            m = importlib.import_module("vf.checks." + pid.lower())
         faulthandler.dump_traceback_later(unit_timeout, exit=True)
         try:
             r = m.run_unit(unit)
@@ -62,13 +68,72 @@ def main():
                 ],
             }
         faulthandler.cancel_dump_traceback_later()
-        tmp = os.path.join(work, "out", f"{k}.json.tmp")
-        with open(tmp, "w") as f:
-            f.write(common.canon(r))
-        os.rename(tmp, os.path.join(work, "out", f"{k}.json"))
+        write_result(work, k, r)
     sys.stdout.flush()
-    import shutil
+    sys.stderr.flush()
+    os._exit(0)
 
+
+def unclaimed(work, units, want_bc):
+    claimed = set(os.listdir(os.path.join(work, "claim")))
+    return [k for k, u in enumerate(units) if bool(u.get("boundscheck")) == want_bc and str(k) not in claimed]
+
+
+def main():
+    pid, work, unit_timeout = sys.argv[1], sys.argv[2], float(sys.argv[3])
+    want_bc = sys.argv[4] == "1"
+    mode = sys.argv[5]
+    if mode == "warm":
+        with common.cache_lock(want_bc, exclusive=True):
+            os.environ["VERIF_NUMBA_PRIVATE"] = common.shared_cache_dir(want_bc)
+            common.setup_env(boundscheck=want_bc, cache_dir=common.shared_cache_dir(want_bc))
+            faulthandler.enable()
+            faulthandler.dump_traceback_later(unit_timeout, exit=True)
+            m = importlib.import_module("vf.checks." + pid.lower())
+            if hasattr(m, "warm"):
+                m.warm()
+        os._exit(0)
+
+    n = int(sys.argv[6])
+    private = os.path.join(work, f"nb-{int(want_bc)}")
+    common.copy_shared_cache(want_bc, private)
+    os.environ["VERIF_NUMBA_PRIVATE"] = private
+    common.setup_env(boundscheck=want_bc, cache_dir=private)
+    units = load_units(work)
+    m = importlib.import_module("vf.checks." + pid.lower())
+    if hasattr(m, "prefork"):
+        try:
+            m.prefork()
+        except Exception:  # noqa: BLE001
+            traceback.print_exc()
+    sys.stdout.flush()
+    sys.stderr.flush()
+    children = {}
+    respawns = 0
+
+    def spawn():
+        c = os.fork()
+        if c == 0:
+            child_loop(pid, work, unit_timeout, want_bc, m, units)
+            os._exit(0)
+        children[c] = time.time()
+
+    for _ in range(n):
+        spawn()
+    while children:
+        c, status = os.wait()
+        children.pop(c, None)
+        rc = os.waitstatus_to_exitcode(status)
+        if rc != 0:
+            # which unit did it hold?
+            for name in os.listdir(os.path.join(work, "claim")):
+                with open(os.path.join(work, "claim", name)) as f:
+                    owner = f.read().strip()
+                if owner == str(c) and not os.path.exists(os.path.join(work, "out", name + ".json")):
+                    write_result(work, int(name), {"crashed": rc, "evaluations": 0})
+            if unclaimed(work, units, want_bc) and respawns < 4 * n:
+                respawns += 1
+                spawn()
     shutil.rmtree(private, ignore_errors=True)
     os._exit(0)
 
